@@ -2,7 +2,9 @@
 //! probability vector the real `State::sample_state` is called with every one of the 2^23 distinct
 //! values the uniform draw can take; the per-target counts are compared with the exact rationals
 //! p_i * 2^23. The dispatch of the sampled target is then observed through `trigger_events` with
-//! probe machines whose target states carry distinguishable actions.
+//! probe machines whose target states carry distinguishable actions. The vector sits on any of the 13
+//! events; internal events (LimitReached, CounterZero, Signal) are raised through the framework by a
+//! scenario built for that purpose, and every other scenario must leave the machine where it is.
 
 use enum_map::enum_map;
 use maybenot::action::{Action, Timer};
@@ -102,10 +104,113 @@ fn gen_vector(r: &mut Xo, case: u64) -> Vec<Trans> {
     }
 }
 
-fn probe_machines(v: &[Trans]) -> Vec<Machine> {
-    // machine 0: state 0 moves on NormalSent per the vector; state i carries SendPadding(timeout i)
+use crate::gen::ALL_EVENTS as EVENTS;
+
+fn ext(ev: Event) -> Option<TriggerEvent> {
+    let machine = maybenot::MachineId::from_raw(0);
+    Some(match ev {
+        Event::NormalRecv => TriggerEvent::NormalRecv,
+        Event::PaddingRecv => TriggerEvent::PaddingRecv,
+        Event::TunnelRecv => TriggerEvent::TunnelRecv,
+        Event::NormalSent => TriggerEvent::NormalSent,
+        Event::TunnelSent => TriggerEvent::TunnelSent,
+        Event::BlockingEnd => TriggerEvent::BlockingEnd,
+        Event::PaddingSent => TriggerEvent::PaddingSent { machine },
+        Event::BlockingBegin => TriggerEvent::BlockingBegin { machine },
+        Event::TimerBegin => TriggerEvent::TimerBegin { machine },
+        Event::TimerEnd => TriggerEvent::TimerEnd { machine },
+        Event::LimitReached | Event::CounterZero | Event::Signal => return None,
+    })
+}
+
+/// A scenario raises event `raise` in machine 0 while it sits in state 0, whose only declared vector
+/// (apart from what the scenario itself needs) is `v` on event `e`.
+struct Scenario {
+    machines: Vec<Machine>,
+    calls: Vec<Vec<TriggerEvent>>,
+    /// the events machine 0 receives in state 0 in the course of the scenario
+    delivered: Vec<Event>,
+}
+
+fn scenario(v: &[Trans], e: Event, raise: Event, variant: u64) -> Scenario {
+    use maybenot::counter::{Counter, Operation};
+    // machine 0: state 0 moves on `e` per the vector; state i carries SendPadding(timeout i)
     let nstates = v.iter().filter(|t| t.0 < STATE_SIGNAL).map(|t| t.0).max().unwrap_or(0) + 1;
-    let mut states = vec![State::new(enum_map! { Event::NormalSent => v.to_vec(), _ => vec![] })];
+    let mut t0 = enum_map! { _ => vec![] };
+    t0[e] = v.to_vec();
+    // the set-up event used by the CounterZero and Signal scenarios
+    let su = if e == Event::NormalRecv { Event::PaddingRecv } else { Event::NormalRecv };
+    let mut extra: Vec<State> = vec![];
+    let mut action0 = None;
+    let mut counter0 = (None, None);
+    let mut delivered = vec![raise];
+    let mut m1_signals_on = None;
+    let calls = match raise {
+        Event::LimitReached => {
+            let (a, carrier) = match variant % 3 {
+                0 => (
+                    Action::SendPadding {
+                        bypass: false,
+                        replace: false,
+                        timeout: constant(1000.0),
+                        limit: Some(constant(1.0)),
+                    },
+                    Event::PaddingSent,
+                ),
+                1 => (
+                    Action::BlockOutgoing {
+                        bypass: false,
+                        replace: false,
+                        timeout: constant(1000.0),
+                        duration: constant(1.0),
+                        limit: Some(constant(1.0)),
+                    },
+                    Event::BlockingBegin,
+                ),
+                _ => (
+                    Action::UpdateTimer {
+                        replace: false,
+                        duration: constant(1000.0),
+                        limit: Some(constant(1.0)),
+                    },
+                    Event::TimerBegin,
+                ),
+            };
+            action0 = Some(a);
+            delivered.push(carrier);
+            vec![vec![ext(carrier).unwrap()]]
+        }
+        Event::CounterZero => {
+            // 0 --su--> X (counter +1) --su--> 0 (counter -1 = 0): CounterZero is raised in state 0
+            let x = nstates;
+            if t0[su].is_empty() {
+                t0[su] = vec![Trans(x, 1.0)];
+            }
+            let mut sx = State::new(enum_map! { Event::NormalRecv | Event::PaddingRecv => vec![Trans(0, 1.0)], _ => vec![] });
+            let inc = Counter::new(Operation::Increment);
+            let dec = Counter::new(Operation::Decrement);
+            if variant % 2 == 0 {
+                sx.counter = (Some(inc), None);
+                counter0 = (Some(dec), None);
+            } else {
+                sx.counter = (None, Some(inc));
+                counter0 = (None, Some(dec));
+            }
+            extra.push(sx);
+            delivered.push(su);
+            vec![vec![ext(su).unwrap()], vec![ext(su).unwrap()]]
+        }
+        Event::Signal => {
+            m1_signals_on = Some(su);
+            delivered.push(su);
+            vec![vec![ext(su).unwrap()]]
+        }
+        _ => vec![vec![ext(raise).unwrap()]],
+    };
+    let mut s0 = State::new(t0);
+    s0.action = action0;
+    s0.counter = counter0;
+    let mut states = vec![s0];
     for i in 1..nstates {
         let mut s = State::new(enum_map! { _ => vec![] });
         s.action = Some(Action::SendPadding {
@@ -116,14 +221,37 @@ fn probe_machines(v: &[Trans]) -> Vec<Machine> {
         });
         states.push(s);
     }
-    let m0 = Machine::new(u64::MAX, 0.0, 0, 0.0, states).unwrap();
-    // machine 1: answers a Signal with a Cancel
-    let mut s0 = State::new(enum_map! { Event::Signal => vec![Trans(1, 1.0)], _ => vec![] });
-    s0.action = None;
+    states.extend(extra);
+    let m0 = Machine::new(u64::MAX, 0.0, u64::MAX, 0.0, states).unwrap();
+    // machine 1: answers a Signal with a Cancel (and signals on the set-up event in the Signal scenario)
+    let mut t1 = enum_map! { Event::Signal => vec![Trans(1, 1.0)], _ => vec![] };
+    if let Some(ev) = m1_signals_on {
+        t1[ev] = vec![Trans(STATE_SIGNAL, 1.0)];
+    }
+    let s0 = State::new(t1);
     let mut s1 = State::new(enum_map! { _ => vec![] });
     s1.action = Some(Action::Cancel { timer: Timer::All });
     let m1 = Machine::new(0, 0.0, 0, 0.0, vec![s0, s1]).unwrap();
-    vec![m0, m1]
+    Scenario {
+        machines: vec![m0, m1],
+        calls,
+        delivered,
+    }
+}
+
+/// (state of machine 0, its action in the last call, whether machine 1 saw a Signal in the last call)
+fn run_scenario(sc: &Scenario, word: u32) -> Result<(usize, Option<crate::drive::Act>, bool, Vec<crate::drive::Act>), String> {
+    let fw_rng = WordRng { word, draws: 0 };
+    let mut fw = Framework::new(&sc.machines[..], 0.0, 0.0, VClock(0), fw_rng).map_err(|e| format!("{e}"))?;
+    let mut acts = vec![];
+    for (i, c) in sc.calls.iter().enumerate() {
+        acts = trigger(&mut fw, c, VClock(1 + i as u64));
+    }
+    let snap = fw.verif_snapshot();
+    let m0_state = snap.machines[0].current_state;
+    let m0_act = acts.iter().find(|a| a.machine == 0).cloned();
+    let signalled = acts.iter().any(|a| a.machine == 1 && a.kind == 0);
+    Ok((m0_state, m0_act, signalled, acts))
 }
 
 impl Prop for C06 {
@@ -138,9 +266,14 @@ impl Prop for C06 {
         let mut r = xo(cx.seed);
         let v = gen_vector(&mut r, cx.case);
         let k = v.len();
-        let st = State::new(enum_map! { Event::NormalSent => v.clone(), _ => vec![] });
+        // the event the vector is declared for
+        let e = if r.chance(1, 4) { Event::NormalSent } else { *r.pick(&EVENTS) };
+        let mut tv = enum_map! { _ => vec![] };
+        tv[e] = v.clone();
+        let st = State::new(tv);
+        out.bump(&format!("vectors_on_{e:?}"));
         out.evaluations += 1;
-        let desc = || json!({"targets": v.iter().map(|t| t.0).collect::<Vec<_>>(), "probabilities": v.iter().map(|t| t.1).collect::<Vec<_>>(),
+        let desc = || json!({"event": format!("{e:?}"), "targets": v.iter().map(|t| t.0).collect::<Vec<_>>(), "probabilities": v.iter().map(|t| t.1).collect::<Vec<_>>(),
                               "probability_bits": v.iter().map(|t| format!("{:#010x}", t.1.to_bits())).collect::<Vec<_>>()});
         // 1. enumerate the whole draw space
         let mut counts = vec![0u64; k];
@@ -150,7 +283,7 @@ impl Prop for C06 {
         let mut first_of: Vec<Option<u32>> = vec![None; k + 1];
         for kk in 0..N as u32 {
             rng.word = kk << 9;
-            match st.sample_state(Event::NormalSent, &mut rng) {
+            match st.sample_state(e, &mut rng) {
                 None => {
                     none += 1;
                     if first_of[k].is_none() {
@@ -247,23 +380,23 @@ impl Prop for C06 {
         for _ in 0..2048 {
             let kk = r.below(N) as u32;
             rng.word = kk << 9;
-            let base = st.sample_state(Event::NormalSent, &mut rng);
+            let base = st.sample_state(e, &mut rng);
             for low in [1u32, 0x1ff, 0x100] {
                 rng.word = (kk << 9) | low;
-                if st.sample_state(Event::NormalSent, &mut rng) != base {
+                if st.sample_state(e, &mut rng) != base {
                     out.violation("C06/low-bits-matter", format!("draw {kk}: the low 9 bits of the word changed the outcome"), desc());
                     return;
                 }
             }
-            let before = rng.draws;
-            if st.sample_state(Event::TunnelRecv, &mut rng).is_some() {
-                out.violation("C06/moved-without-transition", "an event without declared transitions selected a target", desc());
+            let other = *r.pick(&EVENTS);
+            if other != e && st.sample_state(other, &mut rng).is_some() {
+                out.violation("C06/moved-without-transition", format!("event {other:?}, for which no transitions are declared, selected a target"), desc());
                 return;
             }
-            let _ = before;
         }
         // 3. dispatch through the framework: around every outcome boundary and on a stride
-        let machines = probe_machines(&v);
+        let variant = r.below(6);
+        let sc = scenario(&v, e, e, variant);
         let mut probes: Vec<u32> = (0..256).map(|i| (i as u32) * (N as u32 / 256) + (cx.case as u32 % 31)).collect();
         for f in first_of.iter().flatten() {
             for d in [-1i64, 0, 1] {
@@ -274,22 +407,16 @@ impl Prop for C06 {
             }
         }
         probes.push(N as u32 - 1);
-        for kk in probes {
+        for kk in probes.iter().copied() {
             rng.word = kk << 9;
-            let expect = st.sample_state(Event::NormalSent, &mut rng);
-            let fw_rng = WordRng { word: kk << 9, draws: 0 };
-            let mut fw = match Framework::new(&machines[..], 0.0, 0.0, VClock(0), fw_rng) {
-                Ok(f) => f,
-                Err(e) => {
-                    out.violation("C06/probe-construction", format!("{e}"), desc());
+            let expect = st.sample_state(e, &mut rng);
+            let (m0_state, m0_act, signalled, acts) = match run_scenario(&sc, kk << 9) {
+                Ok(x) => x,
+                Err(err) => {
+                    out.violation("C06/probe-construction", err, desc());
                     return;
                 }
             };
-            let acts = trigger(&mut fw, &[TriggerEvent::NormalSent], VClock(1));
-            let snap = fw.verif_snapshot();
-            let m0_state = snap.machines[0].current_state;
-            let m0_act = acts.iter().find(|a| a.machine == 0);
-            let signalled = acts.iter().any(|a| a.machine == 1 && a.kind == 0);
             let observed: Option<usize> = if m0_state == STATE_END {
                 Some(STATE_END)
             } else if signalled {
@@ -301,7 +428,7 @@ impl Prop for C06 {
             };
             out.bump("framework_probes");
             let consistent = match observed {
-                Some(s) if s < STATE_SIGNAL => m0_act.map(|a| a.kind == 1 && a.timeout == s as u64).unwrap_or(false) && !signalled,
+                Some(s) if s < STATE_SIGNAL => m0_act.as_ref().map(|a| a.kind == 1 && a.timeout == s as u64).unwrap_or(false) && !signalled,
                 Some(s) if s == STATE_SIGNAL => m0_act.is_none() && m0_state == 0,
                 Some(_) => m0_act.is_none() && !signalled,
                 None => m0_act.is_none() && !signalled,
@@ -310,14 +437,43 @@ impl Prop for C06 {
                 out.violation(
                     "C06/dispatch-mismatch",
                     format!(
-                        "draw {kk}: sample_state selects {expect:?}, the framework moved machine 0 to state {m0_state} with actions {acts:?} (signal observed: {signalled})"
+                        "draw {kk}, vector declared for {e:?}: sample_state selects {expect:?}, the framework moved machine 0 to state {m0_state} with actions {acts:?} (signal observed: {signalled})"
                     ),
                     desc(),
                 );
                 return;
             }
         }
-        out.nontrivial(hash_of(&v.iter().map(|t| (t.0, t.1.to_bits())).collect::<Vec<_>>()));
+        // 4. every way of raising another event leaves the machine where it is, whatever the draw
+        let some_draws: Vec<u32> = first_of.iter().flatten().copied().chain([0, N as u32 - 1, probes[1 + (cx.case % 200) as usize]]).collect();
+        for raise in EVENTS {
+            let other = scenario(&v, e, raise, variant);
+            if other.delivered.contains(&e) {
+                continue;
+            }
+            for kk in some_draws.iter().copied() {
+                let (m0_state, m0_act, signalled, acts) = match run_scenario(&other, kk << 9) {
+                    Ok(x) => x,
+                    Err(err) => {
+                        out.violation("C06/probe-construction", err, desc());
+                        return;
+                    }
+                };
+                out.bump("framework_probes_of_events_without_declared_transitions");
+                if m0_state != 0 || m0_act.is_some() || signalled {
+                    out.violation(
+                        "C06/moved-without-transition",
+                        format!(
+                            "draw {kk}: the state declares transitions for {e:?} only, yet raising {raise:?} (machine 0 received {:?}) left machine 0 in state {m0_state} with actions {acts:?} (signal observed: {signalled})",
+                            other.delivered
+                        ),
+                        desc(),
+                    );
+                    return;
+                }
+            }
+        }
+        out.nontrivial(hash_of(&(e as usize, v.iter().map(|t| (t.0, t.1.to_bits())).collect::<Vec<_>>())));
         out.sample(|| {
             json!({"vector": desc(), "counts_per_target": counts, "draws_without_transition": none, "draw_space": N,
                    "checked_exactly": all_grid})
